@@ -97,6 +97,7 @@ class OpCode(IntEnum):
 
     # Exception handling
     THROW = auto()  # Throw exception
+    RETHROW = auto()  # Go on with an exception that a finally block interrupted
     TRY_START = auto()  # Start try block: arg = catch offset
     TRY_END = auto()  # End try block
     CATCH = auto()  # Catch handler
